@@ -61,6 +61,9 @@ pub(crate) struct ZXController<H: Host> {
     // so we need to store the internal errors manually. For sake of simplicity,
     // only last error is saved
     last_emulation_error: Option<Error>,
+    // Total count of frames started since controller creation (verification hook)
+    #[cfg(rustzx_verif)]
+    pub(crate) verif_total_frames: u64,
 }
 
 impl<H: Host> ZXController<H> {
@@ -125,6 +128,8 @@ impl<H: Host> ZXController<H> {
             screen_bank,
             current_port_7ffd: 0,
             last_emulation_error: None,
+            #[cfg(rustzx_verif)]
+            verif_total_frames: 0,
         };
 
         #[cfg(feature = "embedded-roms")]
@@ -393,6 +398,12 @@ impl<H: Host> ZXController<H> {
         self.last_emulation_error.take()
     }
 
+    /// Verification hook: (last accepted 0x7FFD value, paging still enabled, screen bank)
+    #[cfg(rustzx_verif)]
+    pub(crate) fn verif_paging(&self) -> (u8, bool, u8) {
+        (self.current_port_7ffd, self.paging_enabled, self.screen_bank)
+    }
+
     pub(crate) fn refresh_memory_dependent_devices(&mut self) {
         match self.machine {
             ZXMachine::Sinclair48K => {
@@ -467,6 +478,10 @@ impl<H: Host> Z80Bus for ZXController<H> {
         if self.frame_clocks >= self.machine.specs().clocks_frame {
             self.new_frame();
             self.passed_frames += 1;
+            #[cfg(rustzx_verif)]
+            {
+                self.verif_total_frames += 1;
+            }
         }
     }
 
